@@ -790,6 +790,7 @@ func lemmaTypedGettersAgreeOnFound(st *SlimTrie, key string) (bool, bool, bool, 
 //@   ensures opts[0] == "s32" ==> sel_indexed(result.Words, result.SelectIndex, result.RankIndex)
 //@   ensures len(indexes) > 0 ==> forall(p, 0, int(indexes[0]), bitat(result.Words, p) == 0)
 //@   ensures len(indexes) == 0 ==> forall(p, 0, 64*len(result.Words), bitat(result.Words, p) == 0)
+//@   ensures asc_strict(indexes) ==> ones(result.Words) == len(indexes)
 
 // wf_shape(ns): the key-independent part of wf(st) — proved for every Slim the builder returns (build, newSlim) and,
 // by the ghost lemma lemmaShapeIsPartOfWf below, implied by wf_core && wf_iprefix && wf_lprefix (so it is a genuine part
@@ -1019,12 +1020,15 @@ func lemmaTypedGettersAgreeOnFound(st *SlimTrie, key string) (bool, bool, bool, 
 //@   loop 1 invariant leaves.N == n && leaves.EltCnt == n && leaves.FixedSize > 0 && int(n) == len(leaves.Bytes)/int(leaves.FixedSize) && leaves.PresenceBM == nil
 //@   loop 1 decreases int(n) - int(i)
 //@   loop 1 use at(0, int(n) - 1)
+//@   loop 1 invariant forall(k, 0, int(i) - 1, indexes[k] < indexes[k+1])
+//@   after newBM#1 assert asc_strict(indexes)
 //@   ensures old(st.inner.Leaves) == nil ==> st.inner.Leaves == nil
 //@   ensures old(st.inner.Leaves) != nil && old(st.inner.Leaves.PresenceBM) != nil ==> st.inner.Leaves.PresenceBM == old(st.inner.Leaves.PresenceBM) && st.inner.Leaves.N == old(st.inner.Leaves.N) && st.inner.Leaves.FixedSize == old(st.inner.Leaves.FixedSize)
 //@   ensures old(st.inner.Leaves) != nil && old(st.inner.Leaves.PresenceBM) == nil && st.inner.Leaves.FixedSize > 0 ==>
 //@       int(st.inner.Leaves.N) == len(st.inner.Leaves.Bytes)/int(st.inner.Leaves.FixedSize) && st.inner.Leaves.EltCnt == st.inner.Leaves.N
 //@       && st.inner.Leaves.PresenceBM != nil && fresh(st.inner.Leaves.PresenceBM) && idx_r64(st.inner.Leaves.PresenceBM.Words, st.inner.Leaves.PresenceBM.RankIndex)
 //@       && len(st.inner.Leaves.PresenceBM.Words) == (int(st.inner.Leaves.N) + 63)/64
+//@       && ones(st.inner.Leaves.PresenceBM.Words) == int(st.inner.Leaves.N)
 
 //@ func before000510
 //@   property C06
